@@ -98,8 +98,31 @@ def _chemicals(model, ids):
 def _gamma(model, ids):
     return _cls(model)(_chemicals(model, ids))
 
-def _has_groups(model, ID):
-    return ID not in NOGROUP
+CONST_FIELDS = ('_interactions', '_qs', '_rs', '_Qs', '_chemgroups', '_chem_Qfractions', '_group_mask', '_index')
+
+def _const_bytes(o):
+    """the construct-time arrays of a model object (a call must never change them)"""
+    return tuple(np.ascontiguousarray(getattr(o, f)).tobytes() if hasattr(o, f) else None for f in CONST_FIELDS)
+
+def _use(st, model, ids):
+    """interned model object + its construct-time data before use (checked again at the end of the transition)"""
+    obj = _gamma(model, ids)
+    st.used.append((obj, model, ids, _const_bytes(obj)))
+    return obj
+
+def _check_used(st):
+    """a transition that modified the construct-time data of an interned object is a violation; the damaged object is
+    dropped from the library's cache so that it cannot leak into later executions (DESIGN 1.2)"""
+    bad = None
+    for obj, model, ids, before in st.used:
+        after = _const_bytes(obj)
+        if after != before:
+            changed = [f for f, a, b in zip(CONST_FIELDS, after, before) if a != b]
+            _cls(model)._cached.pop(_chemicals(model, ids), None)
+            bad = bad or Violation('model-data-modified', f'{model}{ids}: construct-time arrays {changed} changed by a call',
+                                   match=dict(model=model, fields=','.join(changed)))
+    st.used = []
+    return bad
 
 def clear_interned():
     ac = _load()
@@ -201,8 +224,9 @@ class Grid(System):
         st = type('St', (), {})()
         st.model, st.ids, st.T, st.den, st.block, st.nblocks, st.do_perm = model, ids, T, den, b, nb, do_perm
         st.err = None
+        st.used = []
         try:
-            st.obj = _gamma(model, ids)
+            st.obj = _use(st, model, ids)
         except Exception as e:      # reported by the first step (build itself must not raise)
             st.obj = None; st.err = e
         st.info = None
@@ -246,6 +270,17 @@ class Grid(System):
         return perms
 
     def step(self, st, a):
+        try:
+            out = self._step(st, a)
+        except Violation:
+            bad = _check_used(st)
+            if bad is not None: raise bad       # root cause first
+            raise
+        bad = _check_used(st)
+        if bad is not None: raise bad
+        return out
+
+    def _step(self, st, a):
         model, ids, T, obj = st.model, st.ids, st.T, st.obj
         kind = a[0]
         n = len(ids)
@@ -274,7 +309,7 @@ class Grid(System):
             g2 = np.broadcast_to(g2, g1.shape)
             if not np.allclose(g1, g2, rtol=1e-12, atol=0):
                 raise Violation('functional-form-differs', f'{model}{ids}: obj(x,T)={g1.tolist()} but obj.f(x,T,*args)={g2.tolist()} at x={list(x)}',
-                                match=dict(model=model), residual=float(np.max(np.abs(g1 / g2 - 1))))
+                                match=dict(model=model))
             # a second call with the same argument must give the same answer (scratch buffers)
             g3 = _call(obj, x, T, model, 'call', pattern=pat)
             if not np.array_equal(g1, g3):
@@ -335,12 +370,13 @@ class Grid(System):
             for p in self._perms(st):
                 pids = tuple(ids[k] for k in p)
                 try:
-                    pobj = _gamma(model, pids)
+                    pobj = _use(st, model, pids)
                 except Exception as e:
                     raise _unexpected(e, model, 'construct')
                 gp = _call(pobj, [x[k] for k in p], T, model, 'call', pattern=pat)
                 ref = g[list(p)]
-                err = float(np.max(np.abs(gp - ref) / np.abs(ref))) if np.all(np.isfinite(gp)) else float('inf')
+                with np.errstate(all='ignore'):      # harness arithmetic only (thermosteam sets errstate to raise)
+                    err = float(np.max(np.abs(gp - ref) / np.abs(ref))) if np.all(np.isfinite(gp)) else float('inf')
                 worst = max(worst, err)
                 if not err <= 1e-10:
                     raise Violation('permutation-dependent',
@@ -354,13 +390,15 @@ class Grid(System):
             def S(h):
                 gp = _call(obj, x + h * u, T, model, 'call', pattern=pat)
                 gm = _call(obj, x - h * u, T, model, 'call', pattern=pat)
-                d = (np.log(gp) - np.log(gm)) / (2 * h)
+                with np.errstate(all='ignore'):      # harness arithmetic only
+                    d = (np.log(gp) - np.log(gm)) / (2 * h)
                 return d
             d1 = S(H); d2 = S(H / 2)
             d = (4 * d2 - d1) / 3.0
             if not np.all(np.isfinite(d)):
                 raise Violation('non-finite', f'{model}{ids}: dln(gamma) not finite at x={a[1]}', match=dict(model=model, pattern=pat))
-            s = float(np.dot(x, d)); scale = float(np.dot(x, np.abs(d)))
+            with np.errstate(all='ignore'):
+                s = float(np.dot(x, d)); scale = float(np.dot(x, np.abs(d)))
             st.info = ('gd', scale)
             if not abs(s) <= 1e-5 * scale + 1e-9:
                 raise Violation('gibbs-duhem', f'{model}{ids} at x={list(a[1])}, T={T}, direction {ids[i]}-{ids[j]}: '
@@ -480,7 +518,7 @@ class History(System):
         st.info = None
         return st
 
-    CONST = ('_interactions', '_qs', '_rs', '_Qs', '_chemgroups', '_chem_Qfractions', '_group_mask', '_index')
+    CONST = CONST_FIELDS
     def _const(self, o):
         return tuple((f, fx.sparse_digest(np.asarray(getattr(o, f), float))) for f in self.CONST if hasattr(o, f))
 
